@@ -110,6 +110,15 @@ def sigCancelled (d : Doc) (sigCls : TokClass) : Nat ‚Üí Coord ‚Üí Nat ‚Üí Nat ‚
 def isHeaderNode (n : Node) : Bool := match n.tok with | some (.header _ _) => true | _ => false
 def isOpNode (n : Node) : Bool := match n.tok with | some t => t.cls == .SpineOperationToken | none => false
 
+/-- a spine operator that prints as `*` in the recovered preamble: a split that is closed again before the excerpt starts
+    (`is_cancelled_at(from_stage)`), or the join / terminator that closes it (`last_spine_operator_node.token.cancelled_at_stage == node.stage`) -/
+def closedOp (d : Doc) (fromStage : Nat) (c : Coord) (n : Node) : Bool :=
+  let cancelledBefore := isOpNode n && (match d.cancelledAt c with | some s => decide (s < fromStage) | none => false)
+  let joinsHere := isOpNode n && (match n.lastOp with
+    | some l => d.cancelledAt l == some c.1
+    | none => false)
+  cancelledBefore || joinsHere
+
 /-- what one node of a line of the backwards walk contributes: its text and whether it keeps the line (`opRow`: the line holds a spine operator) -/
 def preambleCell (d : Doc) (o : Opts) (fromStage : Nat) (opRow : Bool) (cn : Coord √ó Node) : Except Err (Str √ó Bool) :=
   match cn.2.tok with
@@ -123,11 +132,7 @@ def preambleCell (d : Doc) (o : Opts) (fromStage : Nat) (opRow : Bool) (cn : Coo
     else pure (([] : Str), false)
   | _ =>
     if opRow then
-      let cancelledBefore := isOpNode cn.2 && (match d.cancelledAt cn.1 with | some s => decide (s < fromStage) | none => false)
-      let joinsHere := isOpNode cn.2 && (match cn.2.lastOp with
-        | some l => d.cancelledAt l == some cn.1.1
-        | none => false)
-      if cancelledBefore || joinsHere then pure (['*'], false)
+      if closedOp d fromStage cn.1 cn.2 then pure (['*'], false)
       else do
         let s ‚Üê exportToken d o cn.2
         pure (s, true)
